@@ -1,6 +1,6 @@
 //! harness-intern: drives the real interned ingredient of /repo from a textual case and
 //! prints, per operation, what the API returned (handle ids as index+generation, field
-//! read-backs), the salsa events about interned values, and the H5 linearisation
+//! read-backs), the salsa events about interned values, and the H5/H5b linearisation
 //! records (`salsa::verif_intern::verif_take_intern_trace`).  It never interprets
 //! results.
 //!
@@ -11,9 +11,16 @@
 //!   get before T I V         tracked fn: intern V, then read input I   (stamp NEVER)
 //!   get dyn    T I           tracked fn: intern the value of input I
 //!   get use    T I V         tracked fn: after(T,I,V), then a fn keyed by the handle
+//!   get dynuse T I           tracked fn: h = dyn(T,I); k = keyed(h); d = h.v; returns (h,k,d)
+//!   get dynread T I          tracked fn: h = dyn(T,I); d = h.v; returns (h,d,d)
 //!   set I V [L|M|H]          input setter (durability default LOW)
 //!   synth L|M|H              db.synthetic_write
 //!   newrev                   db.synthetic_write(LOW)
+//!   evfault KIND N           arm the event callback: it panics on the N-th next event of
+//!                            KIND (discard reuse intern validate exec valid any), one shot;
+//!                            `evfault off` disarms
+//!   userfault hash|eq N      arm the user `Hash` / `PartialEq` impl of the interned field
+//!                            type: the N-th next call panics, one shot; `userfault off`
 //!   par T x,x,..;x,x,..;..   one OS thread per `;`-separated list (2-4), each with its own
 //!                            database handle, all released by a barrier; item `V` interns V
 //!                            directly, item `aV` runs the tracked fn after(T, input 0, V);
@@ -23,13 +30,19 @@
 //!   NSHARDS n
 //!   OP k <text>
 //!   EV <kind> ing idx gen rev        salsa events (intern|reuse|validate|discard|exec|valid)
+//!   FAULT ev <kind> | hash | eq      the armed fault fired (the line before it is the event)
 //!   REC <H5 record> [val=V]          in lock order
 //!   RET idx gen read                 handle and field read-back (u32::MAX read = none)
+//!   RET idx gen read keyed direct    dynuse / dynread: also what the query body saw
+//!   RET panic injected|other <msg>   the operation unwound (every `get`/`intern` runs under
+//!                                    catch_unwind); the case continues with the next op
 //!   REV r                            current revision after the operation
 //!
 //! `--shardmap K` prints `SHARD T v shard hash` for v in 0..K (scratch database) and exits.
 use std::io::BufRead;
+use std::panic::{AssertUnwindSafe, catch_unwind};
 use std::sync::Mutex;
+use std::sync::atomic::{AtomicI64, AtomicU8, Ordering};
 
 use salsa::plumbing::AsId;
 use salsa::{Database, Durability, Setter};
@@ -37,15 +50,63 @@ use salsa::{Database, Durability, Setter};
 static LOG: Mutex<Vec<String>> = Mutex::new(Vec::new());
 
 fn log(line: String) {
-    LOG.lock().unwrap().push(line);
+    LOG.lock().unwrap_or_else(|p| p.into_inner()).push(line);
+}
+
+const INJECTED: &str = "verif-injected panic";
+
+/// Event-callback fault: kind code (0 = any) and countdown (<= 0 disarmed, n = panic at the
+/// n-th next matching event).
+static EV_KIND: AtomicU8 = AtomicU8::new(0);
+static EV_LEFT: AtomicI64 = AtomicI64::new(0);
+/// User-code faults of the interned field type: countdowns for `Hash::hash` and `PartialEq::eq`.
+static HASH_LEFT: AtomicI64 = AtomicI64::new(0);
+static EQ_LEFT: AtomicI64 = AtomicI64::new(0);
+
+const KINDS: [&str; 7] = ["any", "intern", "reuse", "validate", "discard", "exec", "valid"];
+
+fn tick(counter: &AtomicI64) -> bool {
+    let n = counter.load(Ordering::SeqCst);
+    if n <= 0 {
+        return false;
+    }
+    counter.store(n - 1, Ordering::SeqCst);
+    n == 1
+}
+
+/// The field type of every interned struct: a `u32` whose `Hash` and `PartialEq` are user
+/// code that can be armed to panic.  Unarmed, it hashes exactly like the `u32` it wraps.
+#[derive(Clone, Copy, Debug, Eq, salsa::SalsaValue)]
+struct V(u32);
+
+impl std::hash::Hash for V {
+    fn hash<H: std::hash::Hasher>(&self, state: &mut H) {
+        if tick(&HASH_LEFT) {
+            log("FAULT hash".to_string());
+            panic!("{INJECTED}");
+        }
+        self.0.hash(state);
+    }
+}
+
+impl PartialEq for V {
+    fn eq(&self, other: &Self) -> bool {
+        if tick(&EQ_LEFT) {
+            log("FAULT eq".to_string());
+            panic!("{INJECTED}");
+        }
+        self.0 == other.0
+    }
 }
 
 /// Drain the hook trace into the log (atomically: the log lock is held while the trace
 /// is taken, so chunks drained by different threads stay in trace order).  The last
 /// `op=intern` record of the calling thread (if any) is the one produced by the
-/// interning that just returned there; it is annotated with the value.
+/// interning that just returned there; it is annotated with the value.  Records of an
+/// interning that unwound carry no annotation (the reader recovers the value from `hash=`
+/// through the `--shardmap` table).
 fn drain(ty_val: Option<(&str, u32)>) {
-    let mut log = LOG.lock().unwrap();
+    let mut log = LOG.lock().unwrap_or_else(|p| p.into_inner());
     let recs = salsa::verif_intern::verif_take_intern_trace();
     let me = format!(" t={:?} ", std::thread::current().id());
     let mine = recs
@@ -68,27 +129,27 @@ struct Inp {
 #[salsa::interned(revisions = 1)]
 struct I1<'db> {
     #[returns(copy)]
-    v: u32,
+    v: V,
 }
 #[salsa::interned(revisions = 2)]
 struct I2<'db> {
     #[returns(copy)]
-    v: u32,
+    v: V,
 }
 #[salsa::interned(revisions = 3)]
 struct I3<'db> {
     #[returns(copy)]
-    v: u32,
+    v: V,
 }
 #[salsa::interned(revisions = usize::MAX)]
 struct IM<'db> {
     #[returns(copy)]
-    v: u32,
+    v: V,
 }
 #[salsa::interned]
 struct ID<'db> {
     #[returns(copy)]
-    v: u32,
+    v: V,
 }
 
 // One family of tracked functions per interned type (written out: `salsa::tracked`
@@ -96,13 +157,13 @@ struct ID<'db> {
 #[salsa::tracked(returns(copy))]
 fn after_1<'db>(db: &'db dyn Database, inp: Inp, val: u32) -> I1<'db> {
     let _ = inp.a(db);
-    let h = I1::new(db, val);
+    let h = I1::new(db, V(val));
     drain(Some(("1", val)));
     h
 }
 #[salsa::tracked(returns(copy))]
 fn before_1<'db>(db: &'db dyn Database, inp: Inp, val: u32) -> I1<'db> {
-    let h = I1::new(db, val);
+    let h = I1::new(db, V(val));
     drain(Some(("1", val)));
     let _ = inp.a(db);
     h
@@ -110,13 +171,13 @@ fn before_1<'db>(db: &'db dyn Database, inp: Inp, val: u32) -> I1<'db> {
 #[salsa::tracked(returns(copy))]
 fn dyn_1<'db>(db: &'db dyn Database, inp: Inp) -> I1<'db> {
     let val = inp.a(db);
-    let h = I1::new(db, val);
+    let h = I1::new(db, V(val));
     drain(Some(("1", val)));
     h
 }
 #[salsa::tracked(returns(copy))]
 fn keyed_1<'db>(db: &'db dyn Database, h: I1<'db>) -> u32 {
-    h.v(db)
+    h.v(db).0
 }
 #[salsa::tracked(returns(copy))]
 fn use_1<'db>(db: &'db dyn Database, inp: Inp, val: u32) -> I1<'db> {
@@ -124,17 +185,29 @@ fn use_1<'db>(db: &'db dyn Database, inp: Inp, val: u32) -> I1<'db> {
     let _ = keyed_1(db, h);
     h
 }
+#[salsa::tracked(returns(copy))]
+fn dynuse_1<'db>(db: &'db dyn Database, inp: Inp) -> (I1<'db>, u32, u32) {
+    let h = dyn_1(db, inp);
+    let k = keyed_1(db, h);
+    (h, k, h.v(db).0)
+}
+#[salsa::tracked(returns(copy))]
+fn dynread_1<'db>(db: &'db dyn Database, inp: Inp) -> (I1<'db>, u32, u32) {
+    let h = dyn_1(db, inp);
+    let d = h.v(db).0;
+    (h, d, d)
+}
 
 #[salsa::tracked(returns(copy))]
 fn after_2<'db>(db: &'db dyn Database, inp: Inp, val: u32) -> I2<'db> {
     let _ = inp.a(db);
-    let h = I2::new(db, val);
+    let h = I2::new(db, V(val));
     drain(Some(("2", val)));
     h
 }
 #[salsa::tracked(returns(copy))]
 fn before_2<'db>(db: &'db dyn Database, inp: Inp, val: u32) -> I2<'db> {
-    let h = I2::new(db, val);
+    let h = I2::new(db, V(val));
     drain(Some(("2", val)));
     let _ = inp.a(db);
     h
@@ -142,13 +215,13 @@ fn before_2<'db>(db: &'db dyn Database, inp: Inp, val: u32) -> I2<'db> {
 #[salsa::tracked(returns(copy))]
 fn dyn_2<'db>(db: &'db dyn Database, inp: Inp) -> I2<'db> {
     let val = inp.a(db);
-    let h = I2::new(db, val);
+    let h = I2::new(db, V(val));
     drain(Some(("2", val)));
     h
 }
 #[salsa::tracked(returns(copy))]
 fn keyed_2<'db>(db: &'db dyn Database, h: I2<'db>) -> u32 {
-    h.v(db)
+    h.v(db).0
 }
 #[salsa::tracked(returns(copy))]
 fn use_2<'db>(db: &'db dyn Database, inp: Inp, val: u32) -> I2<'db> {
@@ -156,17 +229,29 @@ fn use_2<'db>(db: &'db dyn Database, inp: Inp, val: u32) -> I2<'db> {
     let _ = keyed_2(db, h);
     h
 }
+#[salsa::tracked(returns(copy))]
+fn dynuse_2<'db>(db: &'db dyn Database, inp: Inp) -> (I2<'db>, u32, u32) {
+    let h = dyn_2(db, inp);
+    let k = keyed_2(db, h);
+    (h, k, h.v(db).0)
+}
+#[salsa::tracked(returns(copy))]
+fn dynread_2<'db>(db: &'db dyn Database, inp: Inp) -> (I2<'db>, u32, u32) {
+    let h = dyn_2(db, inp);
+    let d = h.v(db).0;
+    (h, d, d)
+}
 
 #[salsa::tracked(returns(copy))]
 fn after_3<'db>(db: &'db dyn Database, inp: Inp, val: u32) -> I3<'db> {
     let _ = inp.a(db);
-    let h = I3::new(db, val);
+    let h = I3::new(db, V(val));
     drain(Some(("3", val)));
     h
 }
 #[salsa::tracked(returns(copy))]
 fn before_3<'db>(db: &'db dyn Database, inp: Inp, val: u32) -> I3<'db> {
-    let h = I3::new(db, val);
+    let h = I3::new(db, V(val));
     drain(Some(("3", val)));
     let _ = inp.a(db);
     h
@@ -174,13 +259,13 @@ fn before_3<'db>(db: &'db dyn Database, inp: Inp, val: u32) -> I3<'db> {
 #[salsa::tracked(returns(copy))]
 fn dyn_3<'db>(db: &'db dyn Database, inp: Inp) -> I3<'db> {
     let val = inp.a(db);
-    let h = I3::new(db, val);
+    let h = I3::new(db, V(val));
     drain(Some(("3", val)));
     h
 }
 #[salsa::tracked(returns(copy))]
 fn keyed_3<'db>(db: &'db dyn Database, h: I3<'db>) -> u32 {
-    h.v(db)
+    h.v(db).0
 }
 #[salsa::tracked(returns(copy))]
 fn use_3<'db>(db: &'db dyn Database, inp: Inp, val: u32) -> I3<'db> {
@@ -188,17 +273,29 @@ fn use_3<'db>(db: &'db dyn Database, inp: Inp, val: u32) -> I3<'db> {
     let _ = keyed_3(db, h);
     h
 }
+#[salsa::tracked(returns(copy))]
+fn dynuse_3<'db>(db: &'db dyn Database, inp: Inp) -> (I3<'db>, u32, u32) {
+    let h = dyn_3(db, inp);
+    let k = keyed_3(db, h);
+    (h, k, h.v(db).0)
+}
+#[salsa::tracked(returns(copy))]
+fn dynread_3<'db>(db: &'db dyn Database, inp: Inp) -> (I3<'db>, u32, u32) {
+    let h = dyn_3(db, inp);
+    let d = h.v(db).0;
+    (h, d, d)
+}
 
 #[salsa::tracked(returns(copy))]
 fn after_m<'db>(db: &'db dyn Database, inp: Inp, val: u32) -> IM<'db> {
     let _ = inp.a(db);
-    let h = IM::new(db, val);
+    let h = IM::new(db, V(val));
     drain(Some(("M", val)));
     h
 }
 #[salsa::tracked(returns(copy))]
 fn before_m<'db>(db: &'db dyn Database, inp: Inp, val: u32) -> IM<'db> {
-    let h = IM::new(db, val);
+    let h = IM::new(db, V(val));
     drain(Some(("M", val)));
     let _ = inp.a(db);
     h
@@ -206,13 +303,13 @@ fn before_m<'db>(db: &'db dyn Database, inp: Inp, val: u32) -> IM<'db> {
 #[salsa::tracked(returns(copy))]
 fn dyn_m<'db>(db: &'db dyn Database, inp: Inp) -> IM<'db> {
     let val = inp.a(db);
-    let h = IM::new(db, val);
+    let h = IM::new(db, V(val));
     drain(Some(("M", val)));
     h
 }
 #[salsa::tracked(returns(copy))]
 fn keyed_m<'db>(db: &'db dyn Database, h: IM<'db>) -> u32 {
-    h.v(db)
+    h.v(db).0
 }
 #[salsa::tracked(returns(copy))]
 fn use_m<'db>(db: &'db dyn Database, inp: Inp, val: u32) -> IM<'db> {
@@ -220,17 +317,29 @@ fn use_m<'db>(db: &'db dyn Database, inp: Inp, val: u32) -> IM<'db> {
     let _ = keyed_m(db, h);
     h
 }
+#[salsa::tracked(returns(copy))]
+fn dynuse_m<'db>(db: &'db dyn Database, inp: Inp) -> (IM<'db>, u32, u32) {
+    let h = dyn_m(db, inp);
+    let k = keyed_m(db, h);
+    (h, k, h.v(db).0)
+}
+#[salsa::tracked(returns(copy))]
+fn dynread_m<'db>(db: &'db dyn Database, inp: Inp) -> (IM<'db>, u32, u32) {
+    let h = dyn_m(db, inp);
+    let d = h.v(db).0;
+    (h, d, d)
+}
 
 #[salsa::tracked(returns(copy))]
 fn after_d<'db>(db: &'db dyn Database, inp: Inp, val: u32) -> ID<'db> {
     let _ = inp.a(db);
-    let h = ID::new(db, val);
+    let h = ID::new(db, V(val));
     drain(Some(("D", val)));
     h
 }
 #[salsa::tracked(returns(copy))]
 fn before_d<'db>(db: &'db dyn Database, inp: Inp, val: u32) -> ID<'db> {
-    let h = ID::new(db, val);
+    let h = ID::new(db, V(val));
     drain(Some(("D", val)));
     let _ = inp.a(db);
     h
@@ -238,19 +347,31 @@ fn before_d<'db>(db: &'db dyn Database, inp: Inp, val: u32) -> ID<'db> {
 #[salsa::tracked(returns(copy))]
 fn dyn_d<'db>(db: &'db dyn Database, inp: Inp) -> ID<'db> {
     let val = inp.a(db);
-    let h = ID::new(db, val);
+    let h = ID::new(db, V(val));
     drain(Some(("D", val)));
     h
 }
 #[salsa::tracked(returns(copy))]
 fn keyed_d<'db>(db: &'db dyn Database, h: ID<'db>) -> u32 {
-    h.v(db)
+    h.v(db).0
 }
 #[salsa::tracked(returns(copy))]
 fn use_d<'db>(db: &'db dyn Database, inp: Inp, val: u32) -> ID<'db> {
     let h = after_d(db, inp, val);
     let _ = keyed_d(db, h);
     h
+}
+#[salsa::tracked(returns(copy))]
+fn dynuse_d<'db>(db: &'db dyn Database, inp: Inp) -> (ID<'db>, u32, u32) {
+    let h = dyn_d(db, inp);
+    let k = keyed_d(db, h);
+    (h, k, h.v(db).0)
+}
+#[salsa::tracked(returns(copy))]
+fn dynread_d<'db>(db: &'db dyn Database, inp: Inp) -> (ID<'db>, u32, u32) {
+    let h = dyn_d(db, inp);
+    let d = h.v(db).0;
+    (h, d, d)
 }
 
 #[salsa::db]
@@ -285,6 +406,12 @@ fn new_db() -> Db {
         if let Some((kind, key, rev)) = line {
             let (ing, idx, generation) = salsa::verif::key_parts(key);
             log(format!("EV {kind} {ing} {idx} {generation} {rev}"));
+            // the event callback is user code: the armed fault fires here (once)
+            let want = KINDS[EV_KIND.load(Ordering::SeqCst) as usize];
+            if (want == "any" || want == kind) && tick(&EV_LEFT) {
+                log(format!("FAULT ev {kind}"));
+                panic!("{INJECTED}");
+            }
         }
     };
     Db {
@@ -304,14 +431,37 @@ fn ret(id: salsa::Id, read: u32) {
     log(format!("RET {} {} {}", id.index(), id.generation(), read));
 }
 
+fn ret3(id: salsa::Id, read: u32, keyed: u32, direct: u32) {
+    log(format!(
+        "RET {} {} {} {} {}",
+        id.index(),
+        id.generation(),
+        read,
+        keyed,
+        direct
+    ));
+}
+
 macro_rules! dispatch {
     ($db:expr, $ty:expr, $f1:ident, $f2:ident, $f3:ident, $fm:ident, $fd:ident, ($($arg:expr),*)) => {
         match $ty {
-            "1" => { let h = $f1($db, $($arg),*); ret(h.as_id(), h.v($db)); }
-            "2" => { let h = $f2($db, $($arg),*); ret(h.as_id(), h.v($db)); }
-            "3" => { let h = $f3($db, $($arg),*); ret(h.as_id(), h.v($db)); }
-            "M" => { let h = $fm($db, $($arg),*); ret(h.as_id(), h.v($db)); }
-            _ => { let h = $fd($db, $($arg),*); ret(h.as_id(), h.v($db)); }
+            "1" => { let h = $f1($db, $($arg),*); ret(h.as_id(), h.v($db).0); }
+            "2" => { let h = $f2($db, $($arg),*); ret(h.as_id(), h.v($db).0); }
+            "3" => { let h = $f3($db, $($arg),*); ret(h.as_id(), h.v($db).0); }
+            "M" => { let h = $fm($db, $($arg),*); ret(h.as_id(), h.v($db).0); }
+            _ => { let h = $fd($db, $($arg),*); ret(h.as_id(), h.v($db).0); }
+        }
+    };
+}
+
+macro_rules! dispatch3 {
+    ($db:expr, $ty:expr, $f1:ident, $f2:ident, $f3:ident, $fm:ident, $fd:ident, ($($arg:expr),*)) => {
+        match $ty {
+            "1" => { let (h, k, d) = $f1($db, $($arg),*); ret3(h.as_id(), h.v($db).0, k, d); }
+            "2" => { let (h, k, d) = $f2($db, $($arg),*); ret3(h.as_id(), h.v($db).0, k, d); }
+            "3" => { let (h, k, d) = $f3($db, $($arg),*); ret3(h.as_id(), h.v($db).0, k, d); }
+            "M" => { let (h, k, d) = $fm($db, $($arg),*); ret3(h.as_id(), h.v($db).0, k, d); }
+            _ => { let (h, k, d) = $fd($db, $($arg),*); ret3(h.as_id(), h.v($db).0, k, d); }
         }
     };
 }
@@ -319,9 +469,9 @@ macro_rules! dispatch {
 fn intern_direct(db: &Db, ty: &str, v: u32) {
     macro_rules! one {
         ($I:ident, $name:literal) => {{
-            let h = $I::new(db, v);
+            let h = $I::new(db, V(v));
             drain(Some(($name, v)));
-            ret(h.as_id(), h.v(db));
+            ret(h.as_id(), h.v(db).0);
         }};
     }
     match ty {
@@ -337,8 +487,8 @@ fn intern_direct(db: &Db, ty: &str, v: u32) {
 fn intern_quiet(db: &Db, ty: &str, v: u32) -> (u32, u32, u32) {
     macro_rules! one {
         ($I:ident) => {{
-            let h = $I::new(db, v);
-            (h.as_id().index(), h.as_id().generation(), h.v(db))
+            let h = $I::new(db, V(v));
+            (h.as_id().index(), h.as_id().generation(), h.v(db).0)
         }};
     }
     match ty {
@@ -354,7 +504,7 @@ fn after_quiet(db: &Db, ty: &str, inp: Inp, v: u32) -> (u32, u32, u32) {
     macro_rules! one {
         ($f:ident) => {{
             let h = $f(db, inp, v);
-            (h.as_id().index(), h.as_id().generation(), h.v(db))
+            (h.as_id().index(), h.as_id().generation(), h.v(db).0)
         }};
     }
     match ty {
@@ -374,7 +524,7 @@ fn shardmap(k: u32) {
             intern_direct(&db, ty, v);
             let lines: Vec<String> = std::mem::take(&mut *LOG.lock().unwrap());
             for l in lines {
-                if let Some(rest) = l.strip_prefix("REC ") {
+                if let Some(rest) = l.strip_prefix("REC op=intern ") {
                     let get = |key: &str| {
                         rest.split(' ')
                             .find_map(|kv| kv.strip_prefix(key))
@@ -393,12 +543,56 @@ fn shardmap(k: u32) {
     }
 }
 
+/// Runs one `get`/`intern` operation; `Err` carries the panic payload.
+fn run_query(db: &Db, inputs: &[Inp], w: &[&str]) {
+    if w[0] == "intern" {
+        intern_direct(db, w[1], w[2].parse().unwrap());
+        return;
+    }
+    let ty = w[2];
+    let inp = inputs[w[3].parse::<usize>().unwrap()];
+    match w[1] {
+        "after" => {
+            let v: u32 = w[4].parse().unwrap();
+            dispatch!(db, ty, after_1, after_2, after_3, after_m, after_d, (inp, v))
+        }
+        "before" => {
+            let v: u32 = w[4].parse().unwrap();
+            dispatch!(db, ty, before_1, before_2, before_3, before_m, before_d, (inp, v))
+        }
+        "use" => {
+            let v: u32 = w[4].parse().unwrap();
+            dispatch!(db, ty, use_1, use_2, use_3, use_m, use_d, (inp, v))
+        }
+        "dynuse" => {
+            dispatch3!(db, ty, dynuse_1, dynuse_2, dynuse_3, dynuse_m, dynuse_d, (inp))
+        }
+        "dynread" => {
+            dispatch3!(db, ty, dynread_1, dynread_2, dynread_3, dynread_m, dynread_d, (inp))
+        }
+        "dyn" => dispatch!(db, ty, dyn_1, dyn_2, dyn_3, dyn_m, dyn_d, (inp)),
+        other => panic!("unknown query shape {other}"),
+    }
+}
+
 fn main() {
     let args: Vec<String> = std::env::args().collect();
     if args.len() >= 3 && args[1] == "--shardmap" {
         shardmap(args[2].parse().unwrap());
         return;
     }
+    // injected panics are expected: keep stderr for everything else
+    let default_hook = std::panic::take_hook();
+    std::panic::set_hook(Box::new(move |info| {
+        let msg = info
+            .payload()
+            .downcast_ref::<String>()
+            .map(String::as_str)
+            .or_else(|| info.payload().downcast_ref::<&str>().copied());
+        if msg != Some(INJECTED) {
+            default_hook(info);
+        }
+    }));
     let mut db = new_db();
     let mut inputs: Vec<Inp> = Vec::new();
     println!("NSHARDS {}", salsa::verif_intern::verif_shard_count());
@@ -420,27 +614,40 @@ fn main() {
                     inputs.push(Inp::new(&db, 0));
                 }
             }
-            "intern" => intern_direct(&db, w[1], w[2].parse().unwrap()),
-            "get" => {
-                let ty = w[2];
-                let inp = inputs[w[3].parse::<usize>().unwrap()];
+            "intern" | "get" => {
                 let dbr: &Db = &db;
-                match w[1] {
-                    "after" => {
-                        let v: u32 = w[4].parse().unwrap();
-                        dispatch!(dbr, ty, after_1, after_2, after_3, after_m, after_d, (inp, v))
+                if let Err(payload) = catch_unwind(AssertUnwindSafe(|| run_query(dbr, &inputs, &w))) {
+                    let msg = payload
+                        .downcast_ref::<String>()
+                        .cloned()
+                        .or_else(|| payload.downcast_ref::<&str>().map(|s| s.to_string()));
+                    match msg {
+                        Some(m) if m == INJECTED => log("RET panic injected".to_string()),
+                        Some(m) => log(format!(
+                            "RET panic other {}",
+                            m.replace('\n', " ").chars().take(160).collect::<String>()
+                        )),
+                        None => log("RET panic other <non-string payload>".to_string()),
                     }
-                    "before" => {
-                        let v: u32 = w[4].parse().unwrap();
-                        dispatch!(dbr, ty, before_1, before_2, before_3, before_m, before_d, (inp, v))
-                    }
-                    "use" => {
-                        let v: u32 = w[4].parse().unwrap();
-                        dispatch!(dbr, ty, use_1, use_2, use_3, use_m, use_d, (inp, v))
-                    }
-                    _ => dispatch!(dbr, ty, dyn_1, dyn_2, dyn_3, dyn_m, dyn_d, (inp)),
                 }
             }
+            "evfault" => {
+                if w[1] == "off" {
+                    EV_LEFT.store(0, Ordering::SeqCst);
+                } else {
+                    let kind = KINDS.iter().position(|k| *k == w[1]).expect("event kind");
+                    EV_KIND.store(kind as u8, Ordering::SeqCst);
+                    EV_LEFT.store(w[2].parse().unwrap(), Ordering::SeqCst);
+                }
+            }
+            "userfault" => match w[1] {
+                "hash" => HASH_LEFT.store(w[2].parse().unwrap(), Ordering::SeqCst),
+                "eq" => EQ_LEFT.store(w[2].parse().unwrap(), Ordering::SeqCst),
+                _ => {
+                    HASH_LEFT.store(0, Ordering::SeqCst);
+                    EQ_LEFT.store(0, Ordering::SeqCst);
+                }
+            },
             "set" => {
                 let inp = inputs[w[1].parse::<usize>().unwrap()];
                 let v: u32 = w[2].parse().unwrap();
@@ -494,9 +701,13 @@ fn main() {
             other => panic!("unknown op {other}"),
         }
         drain(None);
-        let lines: Vec<String> = std::mem::take(&mut *LOG.lock().unwrap());
+        let lines: Vec<String> = std::mem::take(&mut *LOG.lock().unwrap_or_else(|p| p.into_inner()));
         for l in lines {
             println!("{l}");
+        }
+        let left = (EV_LEFT.load(Ordering::SeqCst), HASH_LEFT.load(Ordering::SeqCst), EQ_LEFT.load(Ordering::SeqCst));
+        if left != (0, 0, 0) {
+            println!("ARMED ev={} hash={} eq={}", left.0.max(0), left.1.max(0), left.2.max(0));
         }
         println!("REV {}", rev_num(salsa::plumbing::current_revision(&db)));
     }
